@@ -190,10 +190,10 @@ func c13HFFO(c *Ctx, gen string, hs []elf.ProgHeader, fo uint64) {
 	c.Case(gen, in, obs, len(hs) > 1, "op:hffo")
 }
 
-// bias < 0: not a loader-constructed case (the specification is not evaluated)
-func c13ObjAddr(c *Ctx, gen string, lay c13Layout, m *c13Map, openOK bool, addrs []uint64, bias int64, tags ...string) {
-	in := L(S("objaddr"), lay.term(), m.term(), Bool(openOK), c13ZUs(addrs), Z(bias))
-	obs := c13Guard(func() Term {
+// c13ObjAddrObs runs the implementation: one fresh file object, ObjAddr for every address in order.
+func c13ObjAddrObs(lay c13Layout, m *c13Map, openOK bool, addrs []uint64) (obs Term, first string) {
+	first = "none"
+	obs = c13Guard(func() Term {
 		var openErr error
 		if !openOK {
 			openErr = errors.New("elf.Open failed")
@@ -211,9 +211,27 @@ func c13ObjAddr(c *Ctx, gen string, lay c13Layout, m *c13Map, openOK bool, addrs
 		for i := range out {
 			rs = append(rs, c13Res(out[i], errs[i]))
 		}
+		if len(errs) > 0 {
+			if errs[0] == nil {
+				first = "ok"
+			} else {
+				first = fmt.Sprintf("err%d", c13ErrCode(errs[0]))
+			}
+		}
 		return L(L(rs...), L(ZU(base), Bool(isData)))
 	})
-	c.Case(gen, in, obs, m != nil && len(addrs) > 0 && len(lay.loads()) > 0, append([]string{"op:objaddr"}, tags...)...)
+	return obs, first
+}
+
+// bias < 0: not a loader-constructed case (the specification is not evaluated)
+func c13ObjAddr(c *Ctx, gen string, lay c13Layout, m *c13Map, openOK bool, addrs []uint64, bias int64, tags ...string) {
+	in := L(S("objaddr"), lay.term(), m.term(), Bool(openOK), c13ZUs(addrs), Z(bias))
+	obs, first := c13ObjAddrObs(lay, m, openOK, addrs)
+	tags = append([]string{"op:objaddr", "r0:" + first}, tags...)
+	if bias >= 0 {
+		tags = append(tags, "loader-r0:"+first)
+	}
+	c.Case(gen, in, obs, m != nil && len(addrs) > 0 && len(lay.loads()) > 0, tags...)
 }
 
 type c13Sym struct {
@@ -475,6 +493,17 @@ func c13LoaderCases(c *Ctx, n int) {
 		} else {
 			first = edge[r.Intn(len(edge))]
 			kind = "edge"
+		}
+		if kind == "edge" && r.P(5, 6) { // mostly edges that are inside the mapping
+			var in []uint64
+			for _, a := range edge {
+				if a >= m.start && a < m.limit {
+					in = append(in, a)
+				}
+			}
+			if len(in) > 0 {
+				first = in[r.Intn(len(in))]
+			}
 		}
 		addrs := []uint64{first}
 		for x := r.Intn(4); x > 0; x-- {
@@ -742,12 +771,12 @@ func c13NMCases(c *Ctx, n int) {
 
 func runC13(c *Ctx) {
 	c13FindingF23(c)
-	c13LoaderCases(c, c.Budget(2600, 110000))
-	c13GetBaseCases(c, c.Budget(500, 20000))
-	c13PHMCases(c, c.Budget(600, 30000))
-	c13HFFOCases(c, c.Budget(300, 10000))
-	c13ObjAddrMisc(c, c.Budget(400, 20000))
-	c13NMCases(c, c.Budget(400, 15000))
+	c13LoaderCases(c, c.Budget(2600, 60000))
+	c13GetBaseCases(c, c.Budget(500, 10000))
+	c13PHMCases(c, c.Budget(600, 15000))
+	c13HFFOCases(c, c.Budget(300, 6000))
+	c13ObjAddrMisc(c, c.Budget(400, 10000))
+	c13NMCases(c, c.Budget(400, 8000))
 	if c.Tier == "thorough" {
 		c13RealBinaries(c)
 	}
